@@ -10,22 +10,42 @@ LEVEL = "exploration"
 RULE = (
     "Hypothesis-generated programs (+ templates) cut at EVERY intermediate value with every applicable cut kind {persist, to_delayed->from_delayed(meta, divisions), "
     "to_delayed->from_delayed(meta), to_legacy_dataframe->from_legacy_dataframe (optimized and not)}; the remaining operations continue on the re-imported collection; "
-    "final result (equiv), declared schema and divisions (when the cut kind carries them) must equal the uncut query's. A cut is only placed where all operands that later have to be "
+    "plus two-source programs whose sources are all cut at once before an index-aligning operation (same partition count, different boundaries); final result (equiv), declared schema and divisions (when the cut kind carries them) must equal the uncut query's. A cut is only placed where all operands that later have to be "
     "co-aligned stay on one side of it. non-trivial = the tail contains an operator the optimizer pushes towards the source (projection, filter, partitions, head, reduction); "
     "distinct by (program hash, cut position, cut kind)"
 )
 ASSUMPTIONS = ["persist() runs on the synchronous scheduler", "divisions are compared for persist, legacy and delayed-with-divisions cuts only"]
 BUDGET_S = {"quick": 170, "thorough": 3000}
 
-PROFILE_Q = gen.Profile("cuts", max_steps=6, max_rows=10, weights={"partitions": 1.5, "head": 2, "cols": 4, "col": 3, "filter_pred": 4, "reduce": 2.5, "index_of": 1})
+PROFILE_Q = gen.Profile("cuts", max_steps=6, max_rows=10, weights={"partitions": 1.5, "head": 2, "cols": 4, "col": 3, "filter_pred": 4, "reduce": 2.5, "index_of": 1, "binop_misaligned": 1.5})
 PROFILE_T = gen.Profile("cuts", max_steps=10, max_rows=16, n_tables=(1, 3), weights={"partitions": 1.5, "head": 2, "cols": 4, "col": 3, "filter_pred": 4, "reduce": 2.5, "index_of": 1})
 KINDS = ["persist", "delayed", "legacy", "delayed_nodiv", "legacy_noopt"]
 PUSHED = {"cols", "col", "filter", "filter_pred", "partitions", "head", "reduce", "drop", "dropna", "loc_slice", "index_of"}
 
 
+def misaligned_cases(tier):
+    """two frames over the same labels, cut differently into the SAME number of partitions, combined by an operation that has to
+    align them on the index; every table is cut at once (``multi_cut``)"""
+    S = templates.S
+    cases = []
+    pairs = [([3, 5], [5, 3]), ([2, 3, 3], [4, 1, 3]), ([1, 7], [6, 2]), ([4, 4], [4, 4])]
+    if tier == "thorough":
+        pairs += [([1, 1, 6], [5, 2, 1]), ([2, 2, 2, 2], [1, 3, 1, 3]), ([8], [8])]
+    for ca, cb in pairs:
+        for known in (False, True):
+            ta = templates.table("t0", templates.ROWS_A, layout={"kind": "from_map", "cuts": ca, **({"known": True} if known else {})})
+            tb = templates.table("t1", templates.ROWS_A, layout={"kind": "from_map", "cuts": cb, **({"known": True} if known else {})})
+            for op in ("add", "gt"):
+                steps = [S("v1", "col", ["t0"], col="f"), S("v2", "col", ["t1"], col="i"), S("v3", "binop_misaligned", ["v1", "v2"], op=op)]
+                cases.append({"tables": [ta, tb], "steps": steps, "out": ["v3"], "config": {"shuffle": "tasks"}, "multi_cut": True, "template": "misaligned-" + op})
+            steps = [S("v0", "filter_pred", ["t1"], pred=templates.P("gt", "i", 2)), S("v1", "col", ["t0"], col="i"), S("v2", "col", ["v0"], col="g"), S("v3", "binop_misaligned", ["v1", "v2"], op="add")]
+            cases.append({"tables": [ta, tb], "steps": steps, "out": ["v3"], "config": {"shuffle": "tasks"}, "multi_cut": True, "template": "misaligned-filtered"})
+    return cases
+
+
 def systematic(tier):
     cs = templates.c01_cases(tier)
-    return cs if tier == "thorough" else cs[::2]
+    return (cs if tier == "thorough" else cs[::2]) + misaligned_cases(tier)
 
 
 def strategy(tier):
@@ -66,6 +86,13 @@ def cut_points(prog, pvals, flags):
         if ok:
             out.append(vid)
     return out
+
+
+def with_cuts(prog, vids, how):
+    p = prog
+    for v in vids:
+        p = with_cut(p, v, how)
+    return p
 
 
 def with_cut(prog, vid, how):
@@ -110,14 +137,19 @@ def check(case):
         points = cut_points(prog, pvals, flags)
         only = prog.get("only_cut")
         pos = {s["id"]: k for k, s in enumerate(prog["steps"])}
-        for vid in points:
-            kind = O.kind_of(pvals[vid])
+        targets = [[v] for v in points]
+        if prog.get("multi_cut") and len(prog["tables"]) > 1:
+            # every source is cut at once: two re-imported collections meet in one operation
+            targets.append([t["name"] for t in prog["tables"]])
+        for vids in targets:
+            vid = vids[0] if len(vids) == 1 else "+".join(vids)
+            kind = O.kind_of(pvals[vids[0]])
             kinds = KINDS if kind in ("frame", "series") else ["persist"]
-            tail_ops = {s["op"] for s in prog["steps"] if s["id"] not in pos or pos[s["id"]] > pos.get(vid, -1)}
+            tail_ops = {s["op"] for s in prog["steps"] if s["id"] not in pos or pos[s["id"]] > pos.get(vids[0], -1)}
             for how in kinds:
                 if only and only != [vid, how]:
                     continue
-                p2 = with_cut(prog, vid, how)
+                p2 = with_cuts(prog, vids, how)
                 evals_label = f"cut at {vid} ({kind}) with {how}"
                 try:
                     c2 = interp.run_dask(p2)[out_id]
@@ -128,16 +160,18 @@ def check(case):
                 classes.append(f"cut:{how}:{kind}")
                 if tail_ops & PUSHED:
                     nts.append(f"{h}:{vid}:{how}")
-                d = equiv(got, ref, order=fl.ordered, index=fl.indexed, dtypes="promo")
+                # an index-aligning operation after a cut that drops the divisions aligns by shuffling: row order unspecified
+                shuffled_align = how == "delayed_nodiv" and any("misaligned" in O.OPS[op].tags for op in tail_ops)
+                d = equiv(got, ref, order=fl.ordered and not shuffled_align, index=fl.indexed, dtypes="promo")
                 if d is not None:
                     failures.append(Failure("cut-changes-result", f"{evals_label}: {d}", extra={"bucket_hint": f"result-{how}", "cut": [vid, how]}).record())
                     continue
                 if hasattr(c2, "_meta") and structure.meta_signature(c2._meta) != ref_meta:
                     failures.append(Failure("cut-changes-schema", f"{evals_label}: declared schema {structure.meta_signature(c2._meta)!r} != uncut {ref_meta!r}", extra={"bucket_hint": f"schema-{how}", "cut": [vid, how]}).record())
-                if how in ("persist", "delayed", "legacy", "legacy_noopt") and hasattr(c2, "divisions") and fl.layout and flags[vid].layout:
+                if how in ("persist", "delayed", "legacy", "legacy_noopt") and hasattr(c2, "divisions") and fl.layout and all(flags[v].layout for v in vids):
                     dv = repr(tuple(c2.divisions))
                     if dv != ref_div:
-                        failures.append(Failure("cut-changes-divisions", f"{evals_label}: divisions {dv} != uncut {ref_div}", extra={"bucket_hint": f"divisions-{how}", "cut": [vid, how]}).record())
+                        failures.append(Failure("cut-changes-divisions", f"{evals_label}: divisions {dv} != uncut {ref_div}", extra={"bucket_hint": f"divisions-{how}", "cut": [vid, how], "cut_divisions_unknown": all(x is None for x in c2.divisions)}).record())
     classes += ["op:" + s["op"] for s in prog["steps"]]
     return {"nontrivial": sorted(set(nts)) or False, "classes": classes, "failures": failures, "sample": interp.describe(prog), "evaluations": max(1, len(nts))}
 
